@@ -621,11 +621,13 @@ theorem chainStep_ne_fault (t : UInt8) (b : Bytes) : chainStep t b ≠ .fault :=
       · simp
       · go_steps
         split
-        · go_steps
-          cases h : unmarshalPayload _ _ _ with
-          | ok p => simp
-          | err => simp
-          | fault => exact absurd h (unmarshalPayload_ne_fault _ _ _)
+        · split
+          · simp
+          · go_steps
+            cases h : unmarshalPayload _ _ _ with
+            | ok p => simp
+            | err => simp
+            | fault => exact absurd h (unmarshalPayload_ne_fault _ _ _)
         · split <;> simp
 
 theorem chainStep_len (t : UInt8) (b : Bytes) (op : Option Payload) (nx : UInt8) (n : Nat)
@@ -644,11 +646,13 @@ theorem chainStep_len (t : UInt8) (b : Bytes) (op : Option Payload) (nx : UInt8)
       · simp
       · go_steps
         split
-        · go_steps
-          cases h : unmarshalPayload _ _ _ with
-          | ok p => simp; intro _ _ hn; omega
-          | err => simp
-          | fault => simp
+        · split
+          · simp
+          · go_steps
+            cases h : unmarshalPayload _ _ _ with
+            | ok p => simp; intro _ _ hn; omega
+            | err => simp
+            | fault => simp
         · split
           · simp; intro _ _ hn; omega
           · simp
@@ -854,18 +858,20 @@ theorem chainStep_sk_len (t : UInt8) (b : Bytes) (k : UInt8) (d : Bytes) (nx : U
       · simp
       · go_steps
         split
-        · go_steps
-          cases h : unmarshalPayload _ _ _ with
-          | ok p =>
-            simp
-            intro hp _ hn
-            subst hp
-            have := unmarshalPayload_sk _ _ _ _ _ h
-            subst this
-            simp
-            omega
-          | err => simp
-          | fault => simp
+        · split
+          · simp
+          · go_steps
+            cases h : unmarshalPayload _ _ _ with
+            | ok p =>
+              simp
+              intro hp _ hn
+              subst hp
+              have := unmarshalPayload_sk _ _ _ _ _ h
+              subst this
+              simp
+              omega
+            | err => simp
+            | fault => simp
         · split
           · simp
           · simp
